@@ -184,3 +184,17 @@ def report_obligations(rep, rule, I, **kw):
         rep.ob(rule, "imprecise|" + norm(msg), False, "cannot establish: analysis bound hit: " + msg)
     rep.analysed.update(I.prog.bodies[b]["path"] for b in I.visited_bodies if b in I.prog.bodies)
     return obs
+
+
+def find_impl_fn(prog, trait, self_s, arg_s, name):
+    """method body of `impl trait<arg_s> for self_s` (type display strings)"""
+    for b in prog.bodies.values():
+        if b.get("promoted") or b.get("impl_trait") != trait or b.get("name") != name:
+            continue
+        if prog.types[b["impl_self"]]["s"] != self_s:
+            continue
+        targs = [prog.types[a]["s"] for a in b.get("impl_trait_args", [])]
+        if arg_s is not None and targs != [arg_s]:
+            continue
+        return b
+    return None
